@@ -23,51 +23,53 @@ theorem over_some {α : Type} (x : α) (e : Option α) : over (some x) e = some 
 def lastSet {α : Type} (f : Block → Option α) (global : Block) (applied : List Block) : Option α :=
   over (applied.reverse.findSome? f) (f global)
 
-theorem effective_append (g : Block) (bs : List Block) (h : Block) :
-    effective g (bs ++ [h]) = merge (effective g bs) h := by
-  unfold effective; simp [List.foldl_append]
+theorem over_or {α : Type} (a b c : Option α) : over (a.or b) c = over a (over b c) := by
+  cases a <;> cases b <;> rfl
 
-theorem lastSet_append {α : Type} (f : Block → Option α) (g : Block) (bs : List Block) (h : Block) :
-    lastSet f g (bs ++ [h]) = over (f h) (lastSet f g bs) := by
-  unfold lastSet
-  simp only [List.reverse_append, List.reverse_cons, List.reverse_nil, List.nil_append, List.cons_append,
-    List.findSome?_cons]
-  cases f h <;> rfl
+/-- for every option that MergeWith treats as "set overrides unset" -/
+theorem effective_field {α : Type} (f : Block → Option α) (hf : ∀ g h, f (merge g h) = over (f h) (f g))
+    (g : Block) (bs : List Block) : f (effective g bs) = lastSet f g bs := by
+  induction bs generalizing g with
+  | nil => simp [effective, lastSet, over]
+  | cons h bs ih =>
+    have : effective g (h :: bs) = effective (merge g h) bs := rfl
+    rw [this, ih]
+    unfold lastSet
+    rw [hf]
+    simp only [List.reverse_cons, List.findSome?_append, List.findSome?_cons, List.findSome?_nil]
+    rw [over_or]
+    cases f h <;> rfl
 
 /-- **C01 (host block overrides Global, set overrides unset)** for the option that switches verification off … -/
 theorem C01_effective_skip (g : Block) (bs : List Block) :
-    (effective g bs).skip = lastSet (·.skip) g bs := by
-  induction bs using List.reverseRecOn with
-  | nil => simp [effective, lastSet, over]
-  | append_singleton bs h ih => rw [effective_append, lastSet_append, ← ih]; rfl
+    (effective g bs).skip = lastSet (·.skip) g bs :=
+  effective_field (·.skip) (fun _ _ => rfl) g bs
 
 /-- … and for the expected-name options -/
 theorem C01_effective_names (g : Block) (bs : List Block) :
     (effective g bs).sn = lastSet (·.sn) g bs ∧ (effective g bs).ip4 = lastSet (·.ip4) g bs ∧
-      (effective g bs).ip6 = lastSet (·.ip6) g bs := by
-  induction bs using List.reverseRecOn with
-  | nil => simp [effective, lastSet, over]
-  | append_singleton bs h ih =>
-    rw [effective_append, lastSet_append, lastSet_append, lastSet_append, ← ih.1, ← ih.2.1, ← ih.2.2]
-    exact ⟨rfl, rfl, rfl⟩
+      (effective g bs).ip6 = lastSet (·.ip6) g bs :=
+  ⟨effective_field (·.sn) (fun _ _ => rfl) g bs, effective_field (·.ip4) (fun _ _ => rfl) g bs,
+   effective_field (·.ip6) (fun _ _ => rfl) g bs⟩
 
 /-- the trusted roots are those listed in the Global block or in an applied block, and no others -/
 theorem C01_effective_cas (g : Block) (bs : List Block) (r : String) :
     r ∈ (effective g bs).cas ↔ r ∈ g.cas ∨ ∃ b ∈ bs, r ∈ b.cas := by
-  induction bs using List.reverseRecOn with
+  induction bs generalizing g with
   | nil => simp [effective]
-  | append_singleton bs h ih =>
-    rw [effective_append]
-    simp only [merge, List.mem_append, ih, List.mem_singleton]
+  | cons h bs ih =>
+    have : effective g (h :: bs) = effective (merge g h) bs := rfl
+    rw [this, ih]
+    simp only [merge, List.mem_append, List.mem_cons]
     constructor
-    · rintro ((h1 | ⟨b, hb, hr⟩) | h3)
+    · rintro ((h1 | h2) | ⟨b, hb, hr⟩)
       · exact Or.inl h1
-      · exact Or.inr ⟨b, Or.inl hb, hr⟩
-      · exact Or.inr ⟨h, Or.inr rfl, h3⟩
+      · exact Or.inr ⟨h, Or.inl rfl, h2⟩
+      · exact Or.inr ⟨b, Or.inr hb, hr⟩
     · rintro (h1 | ⟨b, hb | hb, hr⟩)
       · exact Or.inl (Or.inl h1)
-      · exact Or.inl (Or.inr ⟨b, hb, hr⟩)
-      · exact Or.inr (hb ▸ hr)
+      · exact Or.inl (Or.inr (hb ▸ hr))
+      · exact Or.inr ⟨b, hb, hr⟩
 
 /-- **C01 (a host block that demands verification gets it).** If the last applied block that mentions
 InsecureSkipVerify says `false` — whatever the Global block and earlier blocks say — the client accepts only a
@@ -89,7 +91,9 @@ theorem C01_expected_name (b : Block) (host : String) :
     (str b.sn = "" → str b.ip4 = "" → str b.ip6 = "" → expected b host = ⟨.dns, host⟩) := by
   refine ⟨?_, ?_, ?_⟩
   · intro s hs hne; simp [expected, str, hs, hne]
-  · intro s h1 hs hne; simp [expected, h1, str, hs, hne]
+  · intro s h1 hs hne
+    have h2 : str b.ip4 = s := by simp [str, hs]
+    simp [expected, h1, h2, hne]
   · intro h1 h2 h3; simp [expected, h1, h2, h3]
 
 -- non-vacuity: Global switches verification off, the host block switches it back on
